@@ -6,14 +6,14 @@ Arguments N.eqb : simpl never.
 
 (* a proper induction principle for the nested type hint *)
 Section HintInd.
-Variable P : hint -> Prop.
-Hypothesis Patom : forall s, P (HAtom s).
-Hypothesis Plit : forall l, P (HLit l).
-Hypothesis Psub : forall h l, Forall P l -> P (HSub h l).
-Hypothesis Punion : forall l, Forall P l -> P (HUnion l).
-Hypothesis Popt : forall h, P h -> P (HOpt h).
-Hypothesis Pnone : P HNone.
-Hypothesis Pempty : P HEmpty.
+Context (P : hint -> Prop).
+Context (Patom : forall s, P (HAtom s)).
+Context (Plit : forall l, P (HLit l)).
+Context (Psub : forall h l, Forall P l -> P (HSub h l)).
+Context (Punion : forall l, Forall P l -> P (HUnion l)).
+Context (Popt : forall h, P h -> P (HOpt h)).
+Context (Pnone : P HNone).
+Context (Pempty : P HEmpty).
 Fixpoint hint_ind' (h : hint) : P h :=
   match h with
   | HAtom s => Patom s
